@@ -39,6 +39,28 @@ type vDisk struct {
 	calls   int
 	failAt  int // index of the file-level call that fails (-1: none)
 	log     []string
+	// journal (when journalOn): every byte-changing write in program order
+	journalOn bool
+	journal   []vWrite
+}
+
+type vWrite struct {
+	file     *vFile
+	off      int64
+	old, new []byte
+}
+
+func (d *vDisk) note(file *vFile, off int64, p []byte) {
+	if !d.journalOn {
+		return
+	}
+	w := vWrite{file: file, off: off, new: append([]byte(nil), p...)}
+	for i := range p {
+		if int(off)+i < len(file.data) {
+			w.old = append(w.old, file.data[int(off)+i])
+		}
+	}
+	d.journal = append(d.journal, w)
 }
 
 var vD *vDisk
@@ -168,6 +190,7 @@ func vInstall() *vDisk {
 			return 0, err
 		}
 		h := d.handle(f)
+		d.note(h.file, h.pos, p)
 		end := h.pos + int64(len(p))
 		for int64(len(h.file.data)) < end {
 			h.file.data = append(h.file.data, 0)
@@ -201,6 +224,7 @@ func vInstall() *vDisk {
 			return 0, err
 		}
 		h := d.handle(f)
+		d.note(h.file, off, p)
 		end := off + int64(len(p))
 		for int64(len(h.file.data)) < end {
 			h.file.data = append(h.file.data, 0)
@@ -563,6 +587,77 @@ func VK03cRemoveCrash() {
 	}
 	if rowDeleted {
 		vCheck(s2, vB1, d1, false, true, "after completed remove")
+	}
+}
+
+// K03c': the same crash, without assuming the order of the removal's writes: the disk model
+// journals every write of RemoveBlobs in program order; the surviving state is the first j writes
+// plus a prefix of the next one (a dead process has no further effects), for every j. A blob that
+// a reindex of the surviving packs presents must still be byte-exact.
+func VK03cRemoveCrashOrder() {
+	d := vInstall()
+	kv := &vmodel.KV{}
+	s := vOpen(kv, 1<<20)
+	d0, d1, d2 := vrt.Bytes(2), vrt.Bytes(3), vrt.Bytes(2)
+	ctx := context.Background()
+	for _, it := range []struct {
+		r blob.Ref
+		d []byte
+	}{{vB0, d0}, {vB1, d1}, {vB2, d2}} {
+		_, err := s.ReceiveBlob(ctx, it.r, bytes.NewReader(it.d))
+		vrt.Assert(err == nil, "healthy receive")
+	}
+	orig := append([]byte(nil), vD.files[0].data...)
+	rowBefore, _ := kv.Get(vB1.String())
+	d.journalOn = true
+	err := s.RemoveBlobs(ctx, []blob.Ref{vB1})
+	d.journalOn = false
+	vrt.Assert(err == nil, "remove succeeds")
+	nj := len(d.journal)
+	vrt.Assert(nj >= 1 && nj <= 6, "the removal is a short sequence of writes")
+	j := vrt.Choice(nj + 1)
+	crash := append([]byte(nil), orig...)
+	for i := 0; i < j; i++ {
+		w := d.journal[i]
+		copy(crash[w.off:], w.new)
+	}
+	rowDeleted := false
+	touched := j > 0
+	if j < nj {
+		w := d.journal[j]
+		if len(w.new) <= 8 { // body writes may be torn at any byte; the header rewrite is one small atomic write
+			k := vrt.Choice(len(w.new))
+			copy(crash[w.off:int(w.off)+k], w.new[:k])
+			touched = touched || k > 0
+		}
+	} else {
+		rowDeleted = vrt.Choice(2) == 1
+	}
+	vD.files[0].data = crash
+	if !rowDeleted {
+		kv.Set(vB1.String(), rowBefore)
+	}
+	// restart on the surviving index
+	vD.handles = nil
+	s2 := vOpen(kv, 1<<20)
+	vCheck(s2, vB0, d0, true, false, "after remove crash, any write order (other blob)")
+	vCheck(s2, vB2, d2, true, false, "after remove crash, any write order (other blob)")
+	if !touched {
+		vCheck(s2, vB1, d1, true, false, "after remove crash, any write order (untouched blob)")
+	}
+	if rowDeleted {
+		vCheck(s2, vB1, d1, false, true, "after completed remove")
+	}
+	// recovery of the index from the surviving packs
+	kv2, rerr := vReindex(vPacks())
+	vrt.Assert(rerr == nil, "reindex after a crash inside a removal succeeds")
+	vD.handles = nil
+	s3 := vOpen(kv2, 1<<20)
+	vCheck(s3, vB0, d0, true, false, "after remove crash and reindex (other blob)")
+	vCheck(s3, vB2, d2, true, false, "after remove crash and reindex (other blob)")
+	vCheck(s3, vB1, d1, false, false, "after remove crash and reindex (the blob being removed, if the packs still present it)")
+	if j == nj {
+		vrt.Cover("all writes")
 	}
 }
 
